@@ -9,7 +9,7 @@ from sympy.logic.boolalg import Boolean, BooleanTrue, BooleanFalse
 
 from . import sym
 from .interp import (Undecided, PyExc, SymObj, Closure, BoundMethod, External, ClassRef, EnumVal,
-                     ExcClass, PyBuiltin, Opaque, _toint)
+                     ExcClass, PyBuiltin, Opaque, Stale, _toint)
 
 
 def is_sym(v):
@@ -224,6 +224,8 @@ def _cmp_scalar(it, op, a, b):
         same = a is b or (isinstance(a, (bool, int, str, EnumVal)) and type(a) is type(b) and a == b)
         return same if isinstance(op, ast.Is) else not same
     if isinstance(op, (ast.In, ast.NotIn)):
+        if isinstance(b, Stale):
+            return b     # its truth value is a failed frame obligation (interp.truth)
         if isinstance(b, (list, tuple, set, dict, str)):
             if any(is_sym(x) and sym.is_symbolic(x) for x in (b if not isinstance(b, (dict, str)) else [])) or (is_sym(a) and sym.is_symbolic(a)):
                 cond = sym.Or(*[_cmp_scalar(it, ast.Eq(), a, x) for x in b])
@@ -331,6 +333,9 @@ def _resolve_masks(it, idx):
 
 
 def getitem(it, v, idx):
+    if isinstance(v, Stale):
+        it.oblige(f"no-read-of-stale-state.{v.label}", sp.false, kind="frame")
+        return Stale(f"{v.label}[]", owner=v.owner)
     idx = _resolve_masks(it, idx)
     if isinstance(v, SymObj):
         return it.call_method(v, "__getitem__", [idx], {})
@@ -364,6 +369,9 @@ def getitem(it, v, idx):
 
 
 def setitem(it, v, idx, val):
+    if isinstance(v, Stale):
+        it.event(kind="store", obj=v.owner or v.label, attr=v.label + "[]", value=val, where=it.callstack[-1] if it.callstack else "")
+        return
     idx = _resolve_masks(it, idx)
     if isinstance(v, SymObj):
         return it.call_method(v, "__setitem__", [idx, val], {})
@@ -626,7 +634,7 @@ def value_getattr(it, v, name):
         if name == "size":
             return 1
         return BoundMethod(v, name)
-    if isinstance(v, (list, dict, tuple, str, set, int)):
+    if isinstance(v, (list, dict, tuple, str, set, int, Stale)):
         return BoundMethod(v, name)
     if v is None:
         raise PyExc("AttributeError", (f"'NoneType' object has no attribute '{name}'",))
@@ -637,6 +645,16 @@ def value_getattr(it, v, name):
 
 def call_value_method(it, obj, name, args, kwargs):
     from . import npmodel
+    if isinstance(obj, Stale):
+        # a method of state left behind by earlier calls: mutators are stores on the owner, anything else reads it
+        if name in ("clear", "append", "extend", "update", "pop", "add", "remove", "setdefault", "insert"):
+            it.event(kind="store", obj=obj.owner or obj.label, attr=f"{obj.label}.{name}()", value=None, where=it.callstack[-1] if it.callstack else "")
+            if name in ("pop", "setdefault"):
+                it.oblige(f"no-read-of-stale-state.{obj.label}", sp.false, kind="frame")
+                return Stale(f"{obj.label}.{name}()", owner=obj.owner)
+            return None
+        it.oblige(f"no-read-of-stale-state.{obj.label}", sp.false, kind="frame")
+        return Stale(f"{obj.label}.{name}()", owner=obj.owner)
     if isinstance(obj, np.ndarray) or isinstance(obj, sp.Basic):
         h = npmodel.METHODS.get(name)
         if h is None:
